@@ -614,10 +614,16 @@ def build(ctx):
             opnames[7] = 'swap'
         if FAMILIES[fam]['rawassign']:
             opnames[7] = 'assign-raw'
+        todo = []
         for k in ks:
             variants = [('h_step', 'step-' + opnames[op], ['VERIF_OP=%d' % op]) for op in range(maxop + 1)]
             variants += [('h_free_law', 'free_law', []), ('h_drain', 'drain', [])]
-            for entry, vname, defs in variants:
+            todo += [(k, v) for v in variants]
+        if ctx.tier == 'quick' and FAMILIES[fam]['swap']:
+            # swap exchanges two handles while a third may refer to one of the objects: needs K=3 to show
+            todo.append((3, ('h_step', 'step-swap', ['VERIF_OP=7'])))
+        for k, (entry, vname, defs) in todo:
+            if True:
                 groups.append(Group(
                     name='handle/%s/%s/K=%d' % (fam, vname, k), sources={'family.cpp': src, 'helper.c': HELPER_C},
                     entry=entry, lang='cpp', unwind=k + 3, defines=['VERIF_K=%d' % k] + defs, min_obligations=10,
